@@ -918,4 +918,132 @@ theorem serve_fragment_then_timeout (t : Tree) (ts : List Tree) (hdepth : ∀ u 
     rw [e1]
     exact serveLoop_stalled hd ts (fun u hu => hdepth u (by simp [hu])) 1 r1.st S1 evs _
 
+/-! ### no stale error: on scripts whose socket never returns data together with an error, the
+    sniffer never remembers an error, so the replay cannot hand an old one to the service -/
+
+theorem sniffRead_lastErr {st : St} {k : Nat} {evs : List Ev} {r : ReadRes}
+    (h : sniffRead st k evs = .ok r) (hl : st.lastErr = none) (hne : noDataErr evs) :
+    r.st.lastErr = none ∧ (∀ e ∈ r.evs, e ∈ evs) := by
+  by_cases hc : st.bufferSize > st.bufferRead
+  · unfold sniffRead at h
+    rw [if_pos hc] at h
+    split at h
+    · cases h
+    · injection h with h; subst h; exact ⟨hl, fun e he => he⟩
+  · by_cases hs : st.sniffing = true
+    · unfold sniffRead at h
+      rw [if_neg hc] at h
+      simp only [hs, Bool.not_true, Bool.false_and, Bool.false_eq_true, if_false] at h
+      have hf := srcRead_frame st k evs
+      have hn := srcRead_noDataErr st k evs hne
+      generalize srcRead st k evs = q at hf hn h
+      obtain ⟨_, _, _, _, _, f6, _, _, _, _, _, f12⟩ := hf
+      by_cases hb : q.bytes.length > 0
+      · have hb' : q.bytes ≠ [] := by intro h; simp [h] at hb
+        have he : q.err = none := by rcases hn with h | h; exact absurd h hb'; exact h
+        simp only [hb, decide_true, Bool.and_self, if_true] at h
+        injection h with h; subst h
+        exact ⟨he, f12⟩
+      · simp only [hb, decide_false, Bool.false_and, Bool.false_eq_true, if_false] at h
+        injection h with h; subst h
+        exact ⟨by rw [f6, hl], f12⟩
+    · have hs' : st.sniffing = false := by simpa using hs
+      rw [sniffRead_src hc hs'] at h
+      injection h with h; subst h
+      have hf := srcRead_frame (if st.capNonzero = true then { st with buffer := [], capNonzero := false, direct := true } else st) k evs
+      refine ⟨?_, hf.2.2.2.2.2.2.2.2.2.2.2⟩
+      rw [hf.2.2.2.2.2.1]; split <;> simp [hl]
+
+theorem readFull_lastErr (fuel : Nat) (st : St) (want : Nat) (evs : List Ev) (acc : Bytes) (r : FullRes)
+    (h : readFullSniffer fuel st want evs acc = .ok r) (hl : st.lastErr = none) (hne : noDataErr evs) :
+    r.st.lastErr = none ∧ (∀ e ∈ r.evs, e ∈ evs) := by
+  induction fuel generalizing st evs acc with
+  | zero => simp only [readFullSniffer] at h; injection h with h; subst h; exact ⟨hl, fun e he => he⟩
+  | succ fuel ih =>
+    unfold readFullSniffer at h
+    split at h
+    · injection h with h; subst h; exact ⟨hl, fun e he => he⟩
+    · split at h
+      · cases h
+      · rename_i q hq
+        obtain ⟨ql, qsub⟩ := sniffRead_lastErr hq hl hne
+        dsimp only at h
+        split at h
+        · split at h
+          · injection h with h; subst h; exact ⟨ql, qsub⟩
+          · split at h
+            · injection h with h; subst h; exact ⟨ql, qsub⟩
+            · injection h with h; subst h; exact ⟨ql, qsub⟩
+        · split at h
+          · injection h with h; subst h; exact ⟨ql, qsub⟩
+          · obtain ⟨l', sub'⟩ := ih q.st q.evs _ h ql (noDataErr_sub hne qsub)
+            exact ⟨l', fun e he => qsub e (sub' e he)⟩
+
+theorem serveLoop_lastErr (timeoutSet : Bool) (trees : List Tree) (i : Nat) (st : St) (evs : List Ev)
+    (views : List Bytes) (r : ServeRes) (h : serveLoop timeoutSet trees i st evs views = .ok r)
+    (hl : st.lastErr = none) (hne : noDataErr evs) :
+    r.st.lastErr = none ∧ (∀ e ∈ r.evs, e ∈ evs) ∧ (∀ j, r.route = .service j → r.st.sniffing = false) := by
+  induction trees generalizing i st evs views with
+  | nil =>
+    simp only [serveLoop] at h; injection h with h; subst h
+    exact ⟨hl, fun e he => he, fun j hj => by cases hj⟩
+  | cons t ts ih =>
+    simp only [serveLoop, matcherPass] at h
+    split at h
+    · cases h
+    · rename_i m v st1 evs1 hm
+      split at hm
+      · cases hm
+      · rename_i q hq
+        injection hm with hm
+        simp only [Prod.mk.injEq] at hm
+        obtain ⟨_, _, rfl, rfl⟩ := hm
+        obtain ⟨ql, qsub⟩ := readFull_lastErr _ _ _ _ _ q hq (by simpa [reset] using hl) hne
+        split at h
+        · injection h with h; subst h
+          refine ⟨?_, qsub, fun j _ => ?_⟩
+          · cases timeoutSet <;> simp [reset, setDeadline, ql]
+          · cases timeoutSet <;> simp [reset, setDeadline]
+        · obtain ⟨l', sub', sn'⟩ := ih _ _ _ _ h ql (noDataErr_sub hne qsub)
+          exact ⟨l', fun e he => qsub e (sub' e he), sn'⟩
+
+/-- after `serve`, on a script without data-together-with-an-error, no error is remembered
+    (and a connection that is handed over is no longer in sniffing mode) -/
+theorem serve_lastErr (timeoutSet : Bool) (trees : List Tree) (s : Bytes) (evs : List Ev) (hne : noDataErr evs)
+    (r : ServeRes) (h : serve timeoutSet trees s evs = .ok r) :
+    r.st.lastErr = none ∧ noDataErr r.evs ∧ (∀ j, r.route = .service j → r.st.sniffing = false) := by
+  unfold serve at h
+  obtain ⟨hl, hsub, hsn⟩ := serveLoop_lastErr _ _ _ _ _ _ r h (by cases timeoutSet <;> simp [setDeadline]) hne
+  exact ⟨hl, noDataErr_sub hne hsub, hsn⟩
+
+/-- one read of the service on a connection that remembers no error: either it returns no
+    error and (if it was served from the replay buffer) leaves the script untouched, or its
+    whole result is what the socket itself produces now for the next event of the script — on
+    a socket in the same socket state (undelivered bytes, deadline, expiry, closed). -/
+theorem connRead_err_is_the_sockets {st : St} {k : Nat} {evs : List Ev} {r : ReadRes}
+    (h : connRead st k evs = .ok r) (hl : st.lastErr = none) (hs : st.sniffing = false) :
+    r.st.lastErr = none ∧ r.st.sniffing = false ∧
+    ((r.err = none ∧ r.evs = evs ∧ r.st.rem = st.rem) ∨
+     ∃ st', r = srcRead st' k evs ∧ st'.rem = st.rem ∧ st'.deadline = st.deadline ∧
+       st'.timedOut = st.timedOut ∧ st'.closed = st.closed) := by
+  unfold connRead at h
+  split at h
+  · injection h with h; subst h
+    have hf := srcRead_frame st k evs
+    exact ⟨by rw [hf.2.2.2.2.2.1, hl], by rw [hf.2.2.2.2.1, hs], Or.inr ⟨st, rfl, rfl, rfl, rfl, rfl⟩⟩
+  · by_cases hc : st.bufferSize > st.bufferRead
+    · unfold sniffRead at h
+      rw [if_pos hc] at h
+      split at h
+      · cases h
+      · injection h with h; subst h
+        exact ⟨hl, hs, Or.inl ⟨hl, rfl, rfl⟩⟩
+    · rw [sniffRead_src hc hs] at h
+      injection h with h; subst h
+      have hf := srcRead_frame (if st.capNonzero = true then { st with buffer := [], capNonzero := false, direct := true } else st) k evs
+      refine ⟨?_, ?_, Or.inr ⟨_, rfl, ?_, ?_, ?_, ?_⟩⟩
+      · rw [hf.2.2.2.2.2.1]; split <;> simp [hl]
+      · rw [hf.2.2.2.2.1]; split <;> simp [hs]
+      all_goals (split <;> rfl)
+
 end IpcHub.Sniffer
